@@ -31,6 +31,16 @@
 using namespace verif;
 using i128 = __int128;
 
+#ifdef VERIF_TOTALITY_ONLY
+// C01 reuses these sweeps for its "no UB / no exception / terminates" reading: value mismatches are
+// C06's business and are ignored here; only sanitizer aborts, escaping exceptions and hangs count.
+namespace
+{
+inline void totality_only_fail(std::string const &, std::string const &) {}
+}
+#define fail totality_only_fail
+#endif
+
 namespace
 {
 using types = std::tuple<
@@ -449,43 +459,51 @@ void bin_lattice_pairs()
 }
 Reg const r_bin8{"binary_8bit_pairs", Kind::exhaustive, "an operand on the boundary lattice of its type, or equal operands",
                  [] { bin_all_pairs<0>(); bin_all_pairs<1>(); }, bin_case, bin_describe};
-Reg const r_bin16{"binary_16bit_pairs", Kind::exhaustive, "as binary_8bit_pairs (all 2^32 pairs in the thorough tier, lattice x all values in quick)",
-                  [] {
-                    if (opts().thorough())
-                    {
-                      // shards split the outer loop
-                      int const n = opts().nshards, s = opts().shard;
-                      for (int ti = 2; ti <= 3; ++ti)
-                        for (i64 a = -32768; a <= 65535; ++a)
-                        {
-                          if (ti == 2 && a > 32767) break;
-                          if (ti == 3 && a < 0) continue;
-                          if (((a % n) + n) % n != s) continue;
-                          i64 const blo = ti == 2 ? -32768 : 0, bhi = ti == 2 ? 32767 : 65535;
-                          for (i64 b = blo; b <= bhi; ++b)
-                          {
-                            cur3(ti, a, b);
-                            bin_table[static_cast<std::size_t>(ti)](a, b);
-                          }
-                        }
-                    }
-                    else
-                    {
-                      for (std::int16_t a : lattice<std::int16_t>())
-                        for (i64 b = -32768; b <= 32767; ++b)
-                        {
-                          cur3(2, a, b); bin_table[2](a, b);
-                          cur3(2, b, a); bin_table[2](b, a);
-                        }
-                      for (std::uint16_t a : lattice<std::uint16_t>())
-                        for (i64 b = 0; b <= 65535; ++b)
-                        {
-                          cur3(3, a, b); bin_table[3](a, b);
-                          cur3(3, b, a); bin_table[3](b, a);
-                        }
-                    }
-                  },
-                  bin_case, bin_describe};
+// splits its own outer loop over the shards (runs on every shard)
+bool const r_bin16 = (add_section(
+    "binary_16bit_pairs", Kind::exhaustive, "as binary_8bit_pairs (all 2^32 pairs in the thorough tier, lattice x all values in quick)",
+    [] {
+      int const n = opts().nshards, s = opts().shard;
+      if (opts().thorough())
+      {
+        for (int ti = 2; ti <= 3; ++ti)
+          for (i64 a = -32768; a <= 65535; ++a)
+          {
+            if (ti == 2 && a > 32767) break;
+            if (ti == 3 && a < 0) continue;
+            if (((a % n) + n) % n != s) continue;
+            i64 const blo = ti == 2 ? -32768 : 0, bhi = ti == 2 ? 32767 : 65535;
+            for (i64 b = blo; b <= bhi; ++b)
+            {
+              cur3(ti, a, b);
+              bin_table[static_cast<std::size_t>(ti)](a, b);
+            }
+          }
+      }
+      else
+      {
+        int k = 0;
+        for (std::int16_t a : lattice<std::int16_t>())
+        {
+          if (k++ % n != s) continue;
+          for (i64 b = -32768; b <= 32767; ++b)
+          {
+            cur3(2, a, b); bin_table[2](a, b);
+            cur3(2, b, a); bin_table[2](b, a);
+          }
+        }
+        for (std::uint16_t a : lattice<std::uint16_t>())
+        {
+          if (k++ % n != s) continue;
+          for (i64 b = 0; b <= 65535; ++b)
+          {
+            cur3(3, a, b); bin_table[3](a, b);
+            cur3(3, b, a); bin_table[3](b, a);
+          }
+        }
+      }
+    },
+    bin_case, bin_describe).self_sharded = true);
 Reg const r_binl{"binary_lattice_pairs", Kind::exhaustive, "as binary_8bit_pairs (32/64-bit lattice squared)",
                  [] { bin_lattice_pairs<4>(); bin_lattice_pairs<5>(); bin_lattice_pairs<6>(); bin_lattice_pairs<7>(); }, bin_case, bin_describe};
 Reg const r_binr{"binary_random", Kind::random, "as binary_8bit_pairs (seeded boundary-biased 32/64-bit pairs)",
